@@ -721,3 +721,227 @@ Proof.
     rewrite (map_of_list_nodup _ Hs). cbn [save_entity inv_entity].
     rewrite nsort_idem. split; [reflexivity|exact Hs].
 Qed.
+
+(* ------------------------------------------------------------------ simulation level: canonical archives *)
+
+Definition inv_sim (s : sim) : Prop := Forall (fun ne => inv_entity (snd ne)) s.
+Definition names_ok (s : sim) : Prop := Forall (fun ne => bytes_ok (fst ne)) s.
+
+Lemma save_payloads_names s : map fst (save_payloads s) = map fst s.
+Proof. unfold save_payloads. rewrite map_map. reflexivity. Qed.
+
+Lemma NoDup_keys_pairs {A B} (l : list (A * B)) : NoDup (map fst l) -> NoDup l.
+Proof.
+  induction l as [|[k v] l IH]; cbn [map fst]; intros H; [constructor|].
+  inversion H as [|? ? Hk Hl]; subst. constructor; [|exact (IH Hl)].
+  intros Hin. apply Hk. apply in_map_iff. exists (k, v). split; [reflexivity|exact Hin].
+Qed.
+
+Lemma NoDup_keys_functional {A B} (l : list (A * B)) k v v' :
+  NoDup (map fst l) -> In (k, v) l -> In (k, v') l -> v = v'.
+Proof.
+  induction l as [|[k0 v0] l IH]; cbn [map fst]; intros Hnd H1 H2; [destruct H1|].
+  inversion Hnd as [|? ? Hk Hl]; subst.
+  destruct H1 as [E1|H1]; destruct H2 as [E2|H2].
+  - inversion E1; inversion E2; subst. reflexivity.
+  - inversion E1; subst. exfalso. apply Hk. apply in_map_iff. exists (k, v'). split; [reflexivity|exact H2].
+  - inversion E2; subst. exfalso. apply Hk. apply in_map_iff. exists (k, v). split; [reflexivity|exact H1].
+  - exact (IH Hl H1 H2).
+Qed.
+
+Lemma load_entities_shape cfg pl s0 s' :
+  load_entities_with load_buffer cfg pl s0 = Ok s' ->
+  map fst s' = map fst s0 /\
+  forall n e', In (n, e') s' ->
+    exists e0 p, In (n, e0) s0 /\ lookup n pl = Some p /\ load_entity cfg e0 p = Ok e'.
+Proof.
+  revert s'; induction s0 as [|[m f0] s0 IH]; intros s' H; cbn [load_entities_with] in H.
+  - inversion H. split; [reflexivity|intros n e' []].
+  - destruct (lookup m pl) as [p|] eqn:El; [|discriminate].
+    destruct (load_entity_with load_buffer cfg f0 p) as [f'|?|] eqn:Ef; try discriminate.
+    destruct (load_entities_with load_buffer cfg pl s0) as [t|?|] eqn:Et; try discriminate.
+    inversion H; subst. destruct (IH t eq_refl) as [I1 I2]. split.
+    + cbn [map fst]. rewrite I1. reflexivity.
+    + intros n e' [E|Hin].
+      * inversion E; subst. exists f0, p. split; [left; reflexivity|]. split; [exact El|exact Ef].
+      * destruct (I2 n e' Hin) as (e0 & q & A & B & C). exists e0, q. split; [right; exact A|]. split; assumption.
+Qed.
+
+Lemma str_sort_idem {A} (l : list (str * A)) : sort_name (sort_name l) = sort_name l.
+Proof. apply ks_sort_idem; [apply str_ltb_irrefl|apply str_ltb_trans]. Qed.
+
+Lemma canonical cfg b s s0 a s' :
+  names_ok s -> inv_sim s -> NoDup (map fst s0) ->
+  save_sim b s = Ok a -> load_all cfg b a s0 = Ok s' ->
+  save_sim b s' = Ok a /\ inv_sim s'.
+Proof.
+  intros Hnames Hinv Hnd0 Hsave Hload. unfold save_sim in Hsave.
+  assert (Hbn : Forall (fun np : str * payload => bytes_ok (fst np)) (save_payloads s)).
+  { unfold names_ok in Hnames. unfold save_payloads. rewrite Forall_map. exact Hnames. }
+  destruct (read_write b (save_payloads s) a Hbn Hsave) as (Hread & Ha & Hnds & Hb).
+  set (PL := sort_name (save_payloads s)) in *.
+  assert (HpermPL : Permutation PL (save_payloads s)) by apply ks_sort_perm.
+  assert (HndPL : NoDup (map fst PL)).
+  { eapply Permutation_NoDup; [|exact Hnds]. apply Permutation_map, Permutation_sym. exact HpermPL. }
+  destruct (load_all_ok_inv _ _ _ _ _ Hload) as (b' & pl & Hr & _ & Hcov1 & Hcov2 & Hents).
+  rewrite Hread in Hr. inversion Hr; subst b' pl. clear Hr.
+  destruct (load_entities_shape _ _ _ _ Hents) as [Hn' Hshape].
+  (* every reloaded entity saves to exactly the payload it was loaded from *)
+  assert (Hcanon : forall n e', In (n, e') s' -> In (n, save_entity e') PL /\ inv_entity e').
+  { intros n e' Hin. destruct (Hshape n e' Hin) as (e0 & p & _ & Hl & He).
+    apply lookup_In in Hl.
+    assert (Hps : In (n, p) (save_payloads s)) by (eapply Permutation_in; [exact HpermPL|exact Hl]).
+    unfold save_payloads in Hps. apply in_map_iff in Hps. destruct Hps as ([m e] & E & Hes).
+    cbn [fst snd] in E. inversion E; subst m p.
+    assert (Hie : inv_entity e).
+    { unfold inv_sim in Hinv. rewrite Forall_forall in Hinv. exact (Hinv (n, e) Hes). }
+    destruct (entity_canonical cfg e e0 e' Hie He) as [Hsv Hi']. rewrite Hsv. split; [exact Hl|exact Hi']. }
+  assert (HndX : NoDup (map fst (save_payloads s'))).
+  { rewrite save_payloads_names, Hn'. exact Hnd0. }
+  assert (Hperm : Permutation (save_payloads s') PL).
+  { apply NoDup_Permutation; [apply NoDup_keys_pairs; exact HndX|apply NoDup_keys_pairs; exact HndPL|].
+    intros [n p]. split.
+    - intros Hin. unfold save_payloads in Hin. apply in_map_iff in Hin. destruct Hin as ([m e'] & E & Hes).
+      cbn [fst snd] in E. inversion E; subst. exact (proj1 (Hcanon _ _ Hes)).
+    - intros Hin.
+      assert (Hn : In n (map fst s')).
+      { rewrite Hn'. apply Hcov1. apply in_map_iff. exists (n, p). split; [reflexivity|exact Hin]. }
+      apply in_map_iff in Hn. destruct Hn as ([m e'] & E & Hes). cbn [fst] in E. subst m.
+      destruct (Hcanon _ _ Hes) as [Hc _].
+      rewrite (NoDup_keys_functional PL n p (save_entity e') HndPL Hin Hc).
+      unfold save_payloads. apply in_map_iff. exists (n, e'). split; [reflexivity|exact Hes]. }
+  split.
+  - unfold save_sim, write_archive. destruct b as [|c r]; [contradiction|].
+    assert (Hsort : sort_name (save_payloads s') = PL).
+    { unfold sort_name at 1.
+      rewrite (ks_sort_perm_unique str_ltb str_ltb_irrefl str_ltb_trans str_ltb_tri
+                 (save_payloads s') PL HndX Hperm).
+      subst PL. apply str_sort_idem. }
+    unfold sort_name in Hsort |- *. rewrite Hsort.
+    rewrite emit_entries_nodup; [rewrite Ha; reflexivity|exact HndPL|intros n _ []].
+  - unfold inv_sim. apply Forall_forall. intros [n e'] Hin. exact (proj2 (Hcanon n e' Hin)).
+Qed.
+
+(* ------------------------------------------------------------------ exact errors of the shape checks *)
+
+Lemma spec_mismatch cfg h st ht nt h' st' ht' nt' :
+  h <> h' -> load_entity cfg (EComp h st ht nt) (PComp h' st' ht' nt') = Err ESpecHash.
+Proof. intros H. cbn. rewrite (str_eqb_neq _ _ H). reflexivity. Qed.
+
+Lemma evspec_mismatch cfg h st pw h' st' pw' :
+  h <> h' -> load_entity cfg (EEvComp h st pw) (PEvComp h' st' pw') = Err ESpecHash.
+Proof. intros H. cbn. rewrite (str_eqb_neq _ _ H). reflexivity. Qed.
+
+Lemma port_incoming_capacity_mismatch cfg ic ie oc oe bi bo :
+  bc_cap bi <> ic -> load_entity cfg (EPort ic ie oc oe) (PPort bi bo) = Err ECapIncoming.
+Proof.
+  intros H. cbn. unfold load_buffer. replace (bc_cap bi =? ic)%Z with false; [reflexivity|].
+  symmetry. apply Z.eqb_neq. exact H.
+Qed.
+
+Lemma port_outgoing_capacity_mismatch cfg ic ie oc oe bi bo mi :
+  load_buffer cfg ic ECapIncoming bi = Ok mi -> bc_cap bo <> oc ->
+  load_entity cfg (EPort ic ie oc oe) (PPort bi bo) = Err ECapOutgoing.
+Proof.
+  intros Hi H. cbn. rewrite Hi. unfold load_buffer. replace (bc_cap bo =? oc)%Z with false; [reflexivity|].
+  symmetry. apply Z.eqb_neq. exact H.
+Qed.
+
+Lemma port_overflow_rejected cfg cap mism l ms :
+  decode_msgs cfg l = Ok ms -> (cap < Z.of_nat (length ms))%Z ->
+  load_buffer cfg cap mism (mk_bufck cap (Some l)) = Err EOverflow.
+Proof.
+  intros Hd Hl. unfold load_buffer. cbn [bc_cap bc_elems]. rewrite Z.eqb_refl. cbn [negb].
+  rewrite Hd. replace (cap <? Z.of_nat (length ms))%Z with true; [reflexivity|]. symmetry. apply Z.ltb_lt. exact Hl.
+Qed.
+
+Lemma storage_capacity_mismatch cfg c u us c' u' rest units :
+  c' <> c -> load_entity cfg (EStorage c u us) (PStorage (c' :: u' :: rest) units) = Err EStorageCap.
+Proof. intros H. cbn. replace (c' =? c) with false; [reflexivity|]. symmetry. apply N.eqb_neq. exact H. Qed.
+
+Lemma storage_unit_mismatch cfg c u us u' rest units :
+  u' <> u -> load_entity cfg (EStorage c u us) (PStorage (c :: u' :: rest) units) = Err EStorageUnit.
+Proof.
+  intros H. cbn. rewrite N.eqb_refl. cbn [negb].
+  replace (u' =? u) with false; [reflexivity|]. symmetry. apply N.eqb_neq. exact H.
+Qed.
+
+Lemma page_size_mismatch cfg l tb l' tables :
+  l' <> l -> load_entity cfg (EPageTable l tb) (PPageTable l' tables) = Err EPageSize.
+Proof. intros H. cbn. replace (l' =? l) with false; [reflexivity|]. symmetry. apply N.eqb_neq. exact H. Qed.
+
+Lemma unknown_msg_type_rejected cfg cap mism l v :
+  In v l -> ~ In (lv_tag v) (msg_types cfg) ->
+  exists e, load_buffer cfg cap mism (mk_bufck cap (Some l)) = Err e.
+Proof.
+  intros Hin Hnot. destruct (load_buffer cfg cap mism (mk_bufck cap (Some l))) as [ms|e|] eqn:E.
+  - destruct (load_buffer_ok _ _ _ _ _ E) as (_ & Hb & _). cbn [bc_elems ellist_bad] in Hb.
+    assert (existsb (fun v => negb (mem_str (lv_tag v) (msg_types cfg))) l = true).
+    { apply existsb_exists. exists v. split; [exact Hin|].
+      destruct (mem_str (lv_tag v) (msg_types cfg)) eqn:Em; [|reflexivity].
+      apply mem_str_In in Em. contradiction. }
+    congruence.
+  - exists e. reflexivity.
+  - exfalso. exact (load_buffer_no_panic _ _ _ _ E).
+Qed.
+
+Lemma unknown_event_rejected cfg hs l v :
+  In v l ->
+  (~ In (vv_tag v) (evt_types cfg) \/ exists t s h, vv_dec v = Some (t, s, h) /\ ~ In h hs) ->
+  exists e, decode_events cfg hs (Some l) = Err e.
+Proof.
+  intros Hin Hbad. destruct (decode_events cfg hs (Some l)) as [evs|e|] eqn:E.
+  - pose proof (decode_events_ok _ _ _ _ E) as Hb. cbn [evlist_bad] in Hb.
+    assert (existsb (evview_bad cfg hs) l = true).
+    { apply existsb_exists. exists v. split; [exact Hin|]. unfold evview_bad.
+      destruct Hbad as [Ht|(t & s & h & Hd & Hh)].
+      - destruct (mem_str (vv_tag v) (evt_types cfg)) eqn:Em; [|reflexivity].
+        apply mem_str_In in Em. contradiction.
+      - rewrite Hd. destruct (mem_str h hs) eqn:Em; [|apply orb_true_r].
+        apply mem_str_In in Em. contradiction. }
+    congruence.
+  - exists e. reflexivity.
+  - exfalso. exact (decode_events_no_panic _ _ _ E).
+Qed.
+
+(* ------------------------------------------------------------------ link (probes; no panic for simulations) *)
+
+Lemma probe_agreement_implies_property cfg e0 p o blow :
+  check_case (CProbe cfg e0 p o blow) = true -> holds_on (CProbe cfg e0 p o blow) = true.
+Proof.
+  cbn [check_case holds_on]. intros H. apply andb_true_iff in H. destruct H as [Ho Hb].
+  rewrite Hb, andb_true_r.
+  assert (Hobs : o = obs_of (load_entity cfg e0 p)).
+  { destruct (load_entity cfg e0 p) as [x|e|]; destruct o as [|e'|]; cbn in Ho; try discriminate; try reflexivity.
+    destruct (err_eq_dec e e'); [subst; reflexivity|discriminate]. }
+  subst o. pose proof (load_entity_no_panic cfg e0 p) as Hnp.
+  destruct (entity_mismatch_b cfg e0 p) eqn:Em.
+  - destruct (entity_mismatch_err cfg e0 p Em) as [e He]. rewrite He. reflexivity.
+  - destruct (load_entity cfg e0 p); [reflexivity|reflexivity|contradiction].
+Qed.
+
+Lemma sim_agreement_no_panic cfg b1 b2 s s0 t a1 h1 o h2 eq :
+  check_case (CSim cfg b1 b2 s s0 (Some t) a1 h1 o h2 eq) = true -> is_panic o = false.
+Proof.
+  cbn [check_case]. intros H. pose proof (load_all_no_panic cfg b2 t s0) as Hnp.
+  destruct (load_all cfg b2 t s0); destruct o; cbn in H; try discriminate; try reflexivity. contradiction.
+Qed.
+
+(* ------------------------------------------------------------------ a non-trivial instance *)
+
+Definition ex_cfg : config := mk_config [[109]] [[101]].
+Definition ex_sim : sim :=
+  [ ([90], EStorage 64 8 [(16, 5); (0, 7)]);
+    ([69], EEngine 10 [mk_ev 30 false [72] [101] 1; mk_ev 20 false [72] [101] 2] [] [[72]]);
+    ([80; 47; 49], EPort 2 [mk_msg [109] 3] 1 []);
+    ([67], EComp [104] 9 true 40) ].
+Definition ex_rebuilt : sim :=
+  [ ([67], EComp [104] 0 false 0);
+    ([80; 47; 49], EPort 2 [] 1 []);
+    ([69], EEngine 0 [] [] [[72]]);
+    ([90], EStorage 64 8 []) ].
+
+Lemma canonical_example :
+  exists a s', save_sim [98] ex_sim = Ok a /\ load_all ex_cfg [98] a ex_rebuilt = Ok s' /\
+               save_sim [98] s' = Ok a /\ length a = 5%nat.
+Proof. vm_compute. eexists. eexists. repeat split. Qed.
